@@ -303,6 +303,10 @@ impl<'tcx> Cx<'tcx> {
                     extra.push(("trait", s(dpath(tcx, p))));
                 }
             }
+            ty::Pat(inner, _) => {
+                kind = "pat";
+                children.push(("pat".into(), *inner));
+            }
             ty::Param(_) => kind = "param",
             ty::FnPtr(..) => kind = "fnptr",
             ty::FnDef(..) => kind = "fndef",
